@@ -6,7 +6,7 @@
 
    Events: reset{calls, docs, frames[{cls,canon,end,cont}], hold}, send, write{docs,tail}, sent,
    chunk{n}, pending, item{k,cls,canon,cont}, check{k,same}, stream_end, stuck, close, read_eof,
-   recv{cls,canon} (receives after the stream), end.
+   recv{cls,canon} (receives after the stream), stream_drop, end.
 
    AllowHeldClobber is the documented deviation of the pinned code for C11 (known finding): the
    content of an item that the consumer still holds may change once a later transport read has
@@ -106,6 +106,11 @@ TCheck == /\ IsEv("check")
 TStreamEnd == /\ IsEv("stream_end") /\ st = "sent" /\ NothingOwed
               /\ st' = "ended" /\ UNCHANGED <<fvars, cs, docs, cur, open, nw, items, stale, early, kf, sid>>
 
+\* the consumer abandons the stream (at any point, also while it is suspended in the middle of a frame):
+\* whatever it did not take - frames and the bytes of a partial frame already read - stays with the connection
+TStreamDrop == /\ IsEv("stream_drop") /\ st = "sent"
+               /\ st' = "ended" /\ UNCHANGED <<fvars, cs, docs, cur, open, nw, items, stale, early, kf, sid>>
+
 \* later exchanges on the same connection find their frames untouched
 TClose == IsEv("close") /\ Close /\ UNCHANGED cvars
 TReadEof == IsEv("read_eof") /\ ReadEof /\ UNCHANGED cvars
@@ -120,7 +125,7 @@ TEnd == /\ IsEv("end") /\ st = "ended" /\ Complete
 \* `stuck' (the stream waits although everything was delivered), `panic', `build_err', `send_err'
 \* are never explained.
 
-TNext == TReset \/ TSend \/ TWrite \/ TSent \/ TChunk \/ TPending \/ TItem \/ TCheck \/ TStreamEnd
+TNext == TReset \/ TSend \/ TWrite \/ TSent \/ TChunk \/ TPending \/ TItem \/ TCheck \/ TStreamEnd \/ TStreamDrop
          \/ TClose \/ TReadEof \/ TRecv \/ TEnd
 TSpec == TInit /\ [][TNext]_tvars
 Accepted ==
